@@ -62,6 +62,9 @@ func runC06(p *Prog, r *Report) {
 	if want("C06.7") {
 		ruleBaseLevel(p, r, "C06.7")
 	}
+	if want("C06.11") {
+		ruleDstOwnership(p, r, "C06.11")
+	}
 	if want("C06.10") {
 		ruleExpandRanges(p, r, "C06.10")
 	}
